@@ -553,6 +553,10 @@ func (cs *complexShaperArabic) postprocessGlyphs(plan *otShapePlan, buffer *Buff
 		}
 
 		if step == MEASURE { // enlarge
+			// the number of copies comes from the advances of the font: respect the limit on the buffer length
+			if extraGlyphsNeeded < 0 || originCount+extraGlyphsNeeded > buffer.maxLen {
+				return
+			}
 			buffer.Info = append(buffer.Info, make([]GlyphInfo, extraGlyphsNeeded)...)
 			buffer.Pos = append(buffer.Pos, make([]GlyphPosition, extraGlyphsNeeded)...)
 		}
